@@ -982,10 +982,15 @@ func (s *Subscription) retryStaleAccess(cbs []func(*rescache.Access)) bool {
 		return false
 	}
 	s.flags &= ^flagAccessStale
-	// The new request serves as the deferred access check as well.
-	s.flags &= ^flagReaccess
 	t := s.reaccessThrottle
-	s.reaccessThrottle = nil
+	// If an access check is in progress, its validation is among the waiting
+	// callbacks and the new request serves as the deferred check as well.
+	// Otherwise (the answer was awaited by a call or a new request only) the
+	// deferred check is still to be made once the subscription is idle.
+	if s.queueFlag&queueReasonReaccess != 0 {
+		s.flags &= ^flagReaccess
+		s.reaccessThrottle = nil
+	}
 	s.accessCallbacks = nil
 	for _, cb := range cbs {
 		s.loadAccess(cb, t)
